@@ -64,14 +64,15 @@ BASES = ["s", "V", "Hz", "A", "m", "g", "mol", "Pa", "Sv", "N", "K", "Wb"]
 FRACS = [0.125, 0.25, 0.5, 0.75, 0.875]
 DY_DT = [0.125, 0.25, 0.5, 1.0, 1.0, 2.0, 3.0, 10.0, 0.375]
 DY_OFF = [None, None, 0.0, 0.125, -0.5, 1.0, -3.0, 10.5, 2.0, -0.25]
-DEC_DT = [0.1, 0.3, 1e-3, 2.5e-5, 0.7, 1.0, 0.5]
-DEC_DT_MODERATE = [0.1, 0.3, 0.7, 1.0, 0.5]
+DEC_DT = [0.1, 0.3, 1e-3, 2.5e-5, 0.7, 1.0]
+DEC_DT_MODERATE = [0.1, 0.3, 0.7, 1.0]
 DEC_OFF = [None, 0.05, -0.7, 2.0, 0.0, 0.1, 1.3]
 DY_T0 = [0.0, 0.0, 1.0, -2.0, 0.125, 10.5, -0.5]
 DY_GAP = [0.125, 0.25, 0.5, 1.0, 1.0, 1.5, 2.0, 4.25]
 DEC_T0 = [0.0, 0.1, -0.7, 7.125, 1.3]
 DEC_GAP = [0.1, 0.3, 0.25, 1.7, 1.0, 0.05]
 LINKS = ["tagged", "indexed", "untagged"]
+SHRINK_HINTS = {"keep_keys": ["t", "unit", "link", "kind", "rule"]}
 
 
 # ====================================================================== exact helpers
@@ -837,14 +838,14 @@ def recipes(draw):
     # which addressed non-set axis (if any) gets a unit of another quantity
     nonset = [d for d in range(k) if kinds[d] != "set"]
     bad_axis = None
-    if has_units and nonset and draw(st.integers(0, 24)) == 0:
+    if has_units and nonset and draw(st.sampled_from([True] + [False] * 24)):
         bad_axis = draw(st.sampled_from(nonset))
 
     axes, faxes, tag_units = [], [], []
     cols = []           # per addressed axis: list of n (position, extent)
     for d in range(rank):
         akind = kinds[d]
-        dyadic = strict or draw(st.sampled_from([True] + [False] * 5))
+        dyadic = strict or draw(st.sampled_from([True] + [False] * 9))
         g = draw(geometry(akind, shape[d], dyadic))
         A = B = Fr(1)
         unit = None
